@@ -25,6 +25,21 @@ from common import (Ctx, Failure, InfraError, LEAN, EVIDENCE, TRUSTED_BASE,  # n
                     ALLOWED_AXIOMS)
 
 
+def _unavailable(status, path=""):
+    """(where, text) for every generated kernel whose status says it could not be read from the source"""
+    out = []
+    if isinstance(status, dict):
+        for k, v in status.items():
+            out += _unavailable(v, f"{path}/{k}" if path else str(k))
+    elif isinstance(status, (list, tuple)):
+        for i, v in enumerate(status):
+            out += _unavailable(v, f"{path}[{i}]")
+    elif isinstance(status, str):
+        if "unavailable" in status.lower() or path.endswith("_error"):
+            out.append((path, status))
+    return out
+
+
 def main() -> int:
     ap = argparse.ArgumentParser()
     ap.add_argument("prop")
@@ -81,6 +96,10 @@ def run(prop: str, tier: str, seed: int, replay: str | None, scratch: str) -> in
     ctx.lean_ok = ok
     ctx.lean_log = log[-4000:] if not ok else ""
     broken: list[str] = []
+    # a kernel the translator can no longer read from the source (the code left the translator's grammar) is a
+    # broken tie: the theorems are then about the fallback kernel, not about what the code says now
+    for where, what in _unavailable(ctx.gen_status):
+        broken.append(f"translator: {where}: {what}"[:300])
     if ok:
         files = [LEAN / (m.replace(".", "/") + ".lean") for m in mod.LEAN_FILES]
         bad = common.lean_sources_clean(files)
